@@ -127,16 +127,23 @@ theorem progress {s : State} (hg : Good s) (hgr : s.cfgGraceful = true)
       by_cases hpe : 0 < s.pendingErrs
       · exact ⟨.loopErr, rfl, by simp [step, hib, hpe]⟩
       · have hpe0 : s.pendingErrs = 0 := by omega
-        cases hall : s.conns.all (fun cn => !cn.pending) with
+        cases hall : s.conns.all (fun cn => !cn.pending || cn.inSet) with
         | true =>
           exact ⟨.loopEnd, rfl, by simp [step, hib, hend, hpe0, hall]⟩
         | false =>
-          have : ∃ cn ∈ s.conns, cn.pending = true := by simpa using hall
-          obtain ⟨cn, hcn, hp⟩ := this
+          have : ∃ cn ∈ s.conns, cn.pending = true ∧ cn.inSet = false := by simpa using hall
+          obtain ⟨cn, hcn, hp, hns⟩ := this
           obtain ⟨c, hc⟩ := exists_index hcn
-          refine ⟨.loopAccept c, rfl, ?_⟩
-          simp only [step, hib, if_true]
-          exact updConn_isSome hc hp
+          cases htls : cn.tls with
+          | false =>
+            refine ⟨.loopAccept c, rfl, ?_⟩
+            simp only [step, hib, if_true]
+            exact updConn_isSome hc (by simp [hp, htls])
+          | true =>
+            -- a TLS connection not yet handed to the handshake set: `ServerIoStream` takes it
+            refine ⟨.tlsTake c, rfl, ?_⟩
+            simp only [step, hib, if_true]
+            exact updConn_isSome hc (by simp [hp, htls, hns])
   | false =>
     cases had : s.afterDone with
     | false => exact ⟨.afterLoop, rfl, by simp [step, hrun, had]⟩
@@ -227,6 +234,11 @@ theorem allClosed_step {s s' : State} {l : Label} (hrun : s.loopRunning = false)
   case loopAccept c =>
     simp only [step, incomingBranch, hrun, Bool.false_and] at h
     simp at h
+  case tlsTake c =>
+    simp only [step, incomingBranch, hrun, Bool.false_and] at h
+    simp at h
+  case tlsDone c => exact allClosed_updConn ha h (fun _ _ hc => hc)
+  case tlsFail c => exact allClosed_updConn ha h (fun _ _ hc => hc)
   case resolve =>
     simp only [step] at h
     split at h
@@ -306,6 +318,13 @@ theorem requestsDone_step {s s' : State} {l : Label} (hd : RequestsDone s) (hi :
     split at h
     · exact viaConn h (fun _ => rfl)
     · cases h
+  case tlsTake c =>
+    simp only [step] at h
+    split at h
+    · exact viaConn h (fun _ => rfl)
+    · cases h
+  case tlsDone c => exact viaConn h (fun _ => rfl)
+  case tlsFail c => exact viaConn h (fun _ => rfl)
   case resolve =>
     simp only [step] at h
     split at h
